@@ -400,6 +400,7 @@ func TestFaults(t *testing.T) {
 				_ = why
 			} else if survey() {
 				vlib.Class(test, fmt.Sprintf("SURVEY-%s %s %s bcast=%v %s %s", verdict, sc.name, sl.round, sl.broadcast, cls, opName))
+				fmt.Printf("SURVEY-%s %s %s bcast=%v class=%s op=%s :: %s\n", verdict, sc.name, sl.round, sl.broadcast, cls, opName, desc)
 			} else if verdict == "undetected" {
 				t.Fatalf("%s: the alteration of a bound part of the message was accepted: every honest party completed without error (class %s)", what, cls)
 			} else {
